@@ -249,7 +249,7 @@ func (ht *chainHashTable[K, V]) All() iter.Seq2[K, V] {
 
 	// Shuffle the indices list to randomize the order in which buckets are traversed.
 	// This ensures that the traversal order is non-deterministic, reflecting the unordered nature of hash table.
-	r.Shuffle(len(indices), func(i, j int) {
+	shuffle(len(indices), func(i, j int) {
 		indices[i], indices[j] = indices[j], indices[i]
 	})
 
